@@ -889,6 +889,7 @@ func (c *otApplyContext) recurse(subLookupIndex uint16) bool {
 			return false
 		}
 		c.buffer.maxOps--
+		return false
 	}
 
 	c.nestingLevelLeft--
